@@ -99,6 +99,22 @@ MUTANTS = [
      "                ess = effective_sample_size(samples.log_weights(0.5 * (beta + samples.beta)))\n"),
     ("c18-resume-dup", ["C18"], S + "samplers/smc/base.py",
      "        if store_sample_history and not resumed:", "        if store_sample_history:"),
+    # ---- C14
+    ("c14-flow-only-if-missing", ["C14"], S + "aspire.py",
+     "                if self.flow is not None and not saved_flow:\n                    # The flow in the file must be the one this run samples\n                    # from: replace an existing one\n                    if \"flow\" in h5_file:\n                        del h5_file[\"flow\"]\n                    self.save_flow(h5_file)",
+     "                if self.flow is not None and not saved_flow and \"flow\" not in h5_file:\n                    self.save_flow(h5_file)"),
+    ("c14-fit-keeps-saved-flag", ["C14"], S + "aspire.py",
+     "            defaults[\"saved_flow\"] = False\n        # ... and so is a checkpoint", "            pass\n        # ... and so is a checkpoint"),
+    ("c14-resume-defaults-no-config", ["C14"], S + "aspire.py",
+     "            \"every\": 1,\n            \"save_config\": True,\n            \"save_flow\": False,", "            \"every\": 1,\n            \"save_config\": False,\n            \"save_flow\": False,"),
+    ("c14-new-run-keeps-old-checkpoint", ["C14"], S + "aspire.py",
+     "                if \"resume_from\" not in kwargs and \"checkpoint\" in h5_file:", "                if False:"),
+    ("c14-fit-overwrite-keeps-checkpoint", ["C14"], S + "aspire.py",
+     "                        if \"checkpoint\" in h5_file:\n                            # Weighted under the flow that is replaced\n                            del h5_file[\"checkpoint\"]\n", ""),
+    ("c14-fit-keeps-resume-priming", ["C14"], S + "aspire.py",
+     "            if hasattr(self, attr):\n                delattr(self, attr)\n        if checkpoint_path is None and defaults:", "            pass\n        if checkpoint_path is None and defaults:"),
+    ("c14-fit-rewrites-config", ["C14"], S + "aspire.py",
+     "                    and (overwrite or \"checkpoint\" not in h5_file)\n", ""),
     # ---- C12
     ("c12-no-resize", ["C12"], S + "utils.py",
      "    elif bdata.size != target[dsetname].shape[0]:\n        target[dsetname].resize((bdata.size,))\n", "    elif bdata.size > target[dsetname].shape[0]:\n        target[dsetname].resize((bdata.size,))\n"),
